@@ -224,7 +224,7 @@ class Case(M.Case):
         last = self.last or {}
         has_sfa = any(n.qual == 'submit-fail-any' and n.name in
                       self.graph.families for n in G._iter_nodes(self.graph))
-        if not has_sfa or 'got' not in last:
+        if not has_sfa or not last:
             return None
         # what the graph would mean if submit-fail-any named the member
         # output "submitted" (classification of the witness only)
@@ -234,7 +234,12 @@ class Case(M.Case):
                 if n.qual == 'submit-fail-any' and n.name in
                 self.graph.families else n))
         alt = S.Meaning(alt_graph, G.pairs(alt_graph))
-        if last['route'] == 'parser':
+        if last['route'] == 'rejected':
+            # "X can't trigger both t and !t" is the documented answer to
+            # the graph as mis-read
+            same = ("can't trigger both" in last['error'] and M.unsuitable(
+                M.Case(alt_graph)) == 'suicide_and_trigger_share_an_output')
+        elif last['route'] == 'parser':
             same = B.equivalent(last['got'], alt.conj(*last['dep']))
         elif last['route'] == 'config':
             want = B.rekey(alt.conj(*last['dep']),
